@@ -7,7 +7,7 @@ import (
 
 // ---------------------------------------------------------------- families
 
-const nMergeVals = 10
+const nMergeVals = 12
 
 // mergeVal: the focus value set V of DESIGN.md §4.2 (null at member, element and member-of-object-in-array positions, type changes, nesting).
 func mergeVal(i int, p string) *JV {
@@ -33,6 +33,11 @@ func mergeVal(i int, p string) *JV {
 		return jArr(jNull())
 	case 9:
 		return jArr(jObj().with("k", jNull()))
+	case 10:
+		// adjacent nulls followed by a survivor (pruning while iterating)
+		return jObj().with("k", jNull()).with("j", jNull()).with("i", n(0))
+	case 11:
+		return jObj().with("k", jNull()).with("j", jObj().with("i", jNull()).with("h", n(0))).with("g", n(1))
 	}
 	panic("mergeVal")
 }
@@ -64,7 +69,11 @@ func genObjPatch(p string, maxM, nVals int) *JV {
 	o := jObj()
 	m := vx.Choose(p+"m", maxM+1)
 	for k := 0; k < m; k++ {
-		o.withB([]byte{symLetter(p + "k" + itoa(k))}, mergeVal(vx.Choose(p+"v"+itoa(k), nVals), p+itoa(k)+"."))
+		name := []byte{symLetter(p + "k" + itoa(k))}
+		if vx.ParamOr("emptynames", 0) == 1 && vx.Choose(p+"k"+itoa(k)+".empty", 2) == 1 {
+			name = []byte{}
+		}
+		o.withB(name, mergeVal(vx.Choose(p+"v"+itoa(k), nVals), p+itoa(k)+"."))
 	}
 	vx.Assume(!o.hasDupKeys())
 	return o
@@ -101,6 +110,9 @@ func genDoc(p string, maxM, nVals int, nonObjRoots bool) *JV {
 	names := []string{"a", "b", "c"}
 	if k <= maxM {
 		o := jObj()
+		if vx.ParamOr("emptynames", 0) == 1 {
+			names = []string{"", "a", "b"}
+		}
 		for j := 0; j < k; j++ {
 			o.with(names[j], docVal(vx.Choose(p+"v"+itoa(j), nVals), p+itoa(j)+"."))
 		}
@@ -525,7 +537,6 @@ func H_CreateReject() {
 		vx.Reach("createreject/rejected")
 	}
 }
-
 
 // H_Create_Legacy: as H_Create with concrete numbers (the legacy CreateMergePatch decodes numbers as float64).
 func H_Create_Legacy() {
